@@ -286,6 +286,10 @@ def run_C07(ctx):
     recs = exec_cases(ctx, "calls", ["calls", "farcall"], rate, timeout=1500)
     ctx.nontrivial = len({json.dumps(r["case"]["id"]) for r in recs})
     replay_exec(ctx, "calls", recs, ["interp", "jit"])
+    # direction A: random programs with chains of local functions (own stack slots, callee-saved
+    # registers, helper calls inside functions): call depth, r6-r10 and return addresses of every
+    # step are validated by TraceInterp
+    trace_interp(ctx, "structured", 200 if ctx.quick else 5000, mode="structured")
     ctx.extra["depths"] = sorted({r["case"]["id"][1] for r in recs if r["case"]["id"][0] in ("chain", "rec")})
     ctx.extra["error_outcomes"] = sum(1 for r in recs if r["exp"]["k"] == "err")
 
@@ -295,6 +299,8 @@ def run_C08(ctx):
     recs = exec_cases(ctx, "helpers", ["helpers", "cfg"], rate, timeout=1500)
     ctx.nontrivial = len({json.dumps(r["case"]["id"]) for r in recs})
     replay_exec(ctx, "helpers", recs, ["interp", "jit", "cl"])
+    # direction A: helper events (id, arguments, returned value) of random programs
+    trace_interp(ctx, "structured", 200 if ctx.quick else 5000, mode="structured")
     ctx.extra["unregistered_id_cases"] = sum(1 for r in recs if r["exp"]["class"] == "nohelper")
     ctx.extra["helper_calls_expected"] = sum(len(r["exp"]["hlog"]) for r in recs)
 
